@@ -2308,8 +2308,8 @@ func (m *SnapManager) doLinkSnap(t *state.Task, _ *tomb.Tomb) (err error) {
 	t.Set("old-cohort-key", oldCohortKey)
 	t.Set("old-last-refresh-time", oldLastRefreshTime)
 	t.Set("old-revs-before-cand", oldRevsBeforeCand)
+	t.Set("old-revert-status", snapst.RevertStatus)
 	if snapsup.Revert {
-		t.Set("old-revert-status", snapst.RevertStatus)
 		switch snapsup.RevertStatus {
 		case NotBlocked:
 			if snapst.RevertStatus == nil {
@@ -2794,14 +2794,20 @@ func (m *SnapManager) undoLinkSnap(t *state.Task, _ *tomb.Tomb) error {
 	snapst.LastRefreshTime = oldLastRefreshTime
 	snapst.CohortKey = oldCohortKey
 
+	var oldRevertStatus map[int]RevertStatus
+	err = t.Get("old-revert-status", &oldRevertStatus)
+	if err != nil && !errors.Is(err, state.ErrNoState) {
+		return err
+	}
 	if isRevert {
-		var oldRevertStatus map[int]RevertStatus
-		err := t.Get("old-revert-status", &oldRevertStatus)
-		if err != nil && !errors.Is(err, state.ErrNoState) {
-			return err
-		}
 		// may be nil if not set (e.g. created by old snapd)
 		snapst.RevertStatus = oldRevertStatus
+	} else if status, ok := oldRevertStatus[snapsup.Revision().N]; ok {
+		// put back the entry that doLinkSnap dropped for the candidate
+		if snapst.RevertStatus == nil {
+			snapst.RevertStatus = make(map[int]RevertStatus)
+		}
+		snapst.RevertStatus[snapsup.Revision().N] = status
 	}
 
 	newInfo, err := readInfo(snapsup.InstanceName(), snapsup.SideInfo, 0)
